@@ -21,6 +21,7 @@ func c16(c *eng.Ctx, r *eng.Report) {
 		"R16.2/R16.5 neither proof generation nor verification consults randomness, the clock, a cache or any package-level mutable state, so proving is deterministic and the verdict is a function of (key, proof, message); " +
 		"R16.3 ECVRFVerify returns true only as the comparison of the recomputed challenge with the proof's c, after the proof decoded without error, and the message and key passed to hashToCurve are the function's own arguments; " +
 		"R16.4 the quality number is floor(ratio/step)+1 with the stake ratio clamped to 1, and qualification is `valueRatio < stakeRatio`; " +
+		"R16.7 the lottery output (the encoding of Gamma) is unique: ECVRFVerify accepts only after the decoded Gamma passed the prime-order-subgroup test, which multiplies by the group order l; " +
 		"R16.6 decodeProof cuts the proof into gamma|c|s with plain copies that tile bytes [0,80) exactly and writes nothing else into those buffers (no bit of the proof is masked away before verification). " +
 		"Not decided: uniqueness/soundness of the VRF, bit-flip rejection, the numeric range of qn under float rounding."
 	r.Assume = []string{"edwards25519 group arithmetic and SHA-512 are correct"}
@@ -29,6 +30,7 @@ func c16(c *eng.Ctx, r *eng.Report) {
 	c16Verify(c, r)
 	c16Qn(c, r)
 	c16Verbatim(c, r)
+	c16Unique(c, r)
 }
 
 func c16Padding(c *eng.Ctx, r *eng.Report) {
@@ -258,6 +260,95 @@ func c16Verbatim(c *eng.Ctx, r *eng.Report) {
 		}
 	}
 	r.Check(bad == "", rule, "decodeProof:verbatim", c.Pos(fn.Pos()), "gamma|c|s are plain copies of pi[0:32], pi[32:48], pi[48:80] and nothing else is written into them", "decodeProof: "+bad)
+}
+
+// c16Unique: the lottery output is the encoding of Gamma (VRFProof2Hash takes
+// proof[:32]), so verification must pin Gamma down to one point: either it
+// rejects a Gamma outside the prime-order subgroup, or the output clears the
+// cofactor. (Finding F22: neither was done; fixed by the subgroup test.)
+func c16Unique(c *eng.Ctx, r *eng.Report) {
+	const rule = "R16.7"
+	r.Min(rule, 2)
+	fn := c.Func(edPkg, "ECVRFVerify")
+	p2h := c.Func("consensus/vrf", "VRFProof2Hash")
+	if !r.Anchor(fn != nil && p2h != nil, rule, "ed25519.ECVRFVerify / vrf.VRFProof2Hash") {
+		return
+	}
+	// the accepting return is reachable only after inPrimeOrderSubgroup(gamma) returned true,
+	// with gamma the point decoded from this proof
+	dec := callsNamed(fn, edPkg+".decodeProof")
+	var sub *ssa.Call
+	for _, call := range callsNamed(fn, edPkg+".inPrimeOrderSubgroup") {
+		if ex, ok := call.Call.Args[0].(*ssa.Extract); ok && len(dec) == 1 && ex.Tuple == ssa.Value(dec[0]) && ex.Index == 0 {
+			sub = call
+		}
+	}
+	ok := sub != nil
+	if ok {
+		for _, re := range eng.Returns(fn) {
+			if eng.RetClass(re.Ret, 0, re.Pred) == "false" {
+				continue
+			}
+			guarded := false
+			for _, cd := range eng.EdgeConds(re.Ret.Block()) {
+				if cd.V == ssa.Value(sub) && cd.True {
+					guarded = true
+				}
+			}
+			ok = ok && guarded
+		}
+	}
+	clears := len(callsNamed(p2h, "GeScalarMult", "GeDouble", "ScalarMult")) > 0
+	r.Check(ok || clears, rule, "ECVRFVerify:gamma-subgroup", c.Pos(fn.Pos()), "acceptance only after inPrimeOrderSubgroup(decoded Gamma) (or the output clears the cofactor)", "ECVRFVerify can accept a proof whose Gamma was not tested for membership in the prime-order subgroup while the lottery output is the raw encoding of Gamma: Gamma shifted by a small-order point verifies for a fraction of the nonces, so one key and message have several accepted proofs with different lottery outputs")
+	// the subgroup test multiplies by the group order l = 2^252 + 27742317777372353535851937790883648493
+	sg := c.Func(edPkg, "inPrimeOrderSubgroup")
+	if sub != nil && r.Anchor(sg != nil, rule, "ed25519.inPrimeOrderSubgroup") {
+		okOrder := false
+		if g := c.Pkg(edPkg).Var("groupOrder"); g != nil {
+			if init := c.Pkg(edPkg).Func("init"); init != nil {
+				want := []int64{0xed, 0xd3, 0xf5, 0x5c, 0x1a, 0x63, 0x12, 0x58, 0xd6, 0x9c, 0xf7, 0xa2, 0xde, 0xf9, 0xde, 0x14}
+				got := map[int64]int64{}
+				for _, b := range init.Blocks {
+					for _, in := range b.Instrs {
+						st, isSt := in.(*ssa.Store)
+						if !isSt {
+							continue
+						}
+						ia, isIA := st.Addr.(*ssa.IndexAddr)
+						if !isIA {
+							continue
+						}
+						// element stores of the composite literal that initialises groupOrder
+						root := ia.X
+						if root != ssa.Value(g) {
+							if al, isA := root.(*ssa.Alloc); !isA || !strings.Contains(al.Comment, "complit") {
+								continue
+							}
+						}
+						if i, okI := eng.ConstInt(ia.Index); okI {
+							if v, okV := eng.ConstInt(st.Val); okV {
+								got[i] = v
+							}
+						}
+					}
+				}
+				okOrder = got[31] == 0x10
+				for i, w := range want {
+					okOrder = okOrder && got[int64(i)] == w
+				}
+				for i := int64(16); i < 31; i++ {
+					okOrder = okOrder && got[i] == 0
+				}
+			}
+		}
+		usesIt := false
+		for _, call := range callsNamed(sg, "GeScalarMult") {
+			if strings.Contains(eng.Desc(call.Call.Args[1]), "groupOrder") {
+				usesIt = true
+			}
+		}
+		r.Check(okOrder && usesIt, rule, "inPrimeOrderSubgroup:order", c.Pos(sg.Pos()), "multiplies by l (little-endian bytes of 2^252+27742317777372353535851937790883648493) and compares with the neutral element", fmt.Sprintf("the subgroup test does not multiply by the group order (constant ok=%v, used=%v)", okOrder, usesIt))
+	}
 }
 
 func c16Qn(c *eng.Ctx, r *eng.Report) {
